@@ -1,5 +1,6 @@
 """C13 In-place and commuted operator execution match normal execution - operator contract (sibling agreement)."""
 import json, os, re
+import re
 from rulelib import *
 import opsum
 
@@ -96,6 +97,32 @@ def run(ctx):
         if inpl:
             ok = all(guards_call(c.fn, c.bb, BE + 'can_run_binary_op_in_place', True) for c in inpl)
             ctx.inst(R, 'in-place-kernel-guarded:' + o.short, ok, '%d in-place kernel call(s) dominated by positive can_run_binary_op_in_place' % len(inpl), f.loc())
+
+    # ---- the in-place predicate itself: true only if `b` broadcasts to `a`'s shape (otherwise the output shape of the
+    # normal path differs from the shape of the in-place operand)
+    pf = fb.fn(BE + 'can_run_binary_op_in_place')
+    if pf is None or not pf.has_mir():
+        ctx.inst(R, 'anchor:can_run_binary_op_in_place', False, 'predicate not found', '')
+    else:
+        bad = None
+        nret = 0
+        for (bb, j, kind, payload, dpl) in pf.defs().get(0, []):
+            nret += 1
+            if kind == 'call':
+                if not re.search(r'::can_broadcast_to$', payload.callee or ''):
+                    bad = 'returns the result of %s' % (payload.callee or '').split('::')[-1]
+                continue
+            rv = payload
+            if rv[0] == 'use' and rv[1][0] == 'k':
+                val = str(rv[1][1])
+                if val.endswith('true') and not guards_call(pf, bb, 're:::can_broadcast_to$', True):
+                    bad = 'returns true on a path that has not checked that the other operand broadcasts to the in-place operand\'s shape'
+            else:
+                r = pf.resolve_copy(rv[1]) if rv[0] == 'use' else ('rv', rv)
+                if not (r[0] == 'call' and re.search(r'::can_broadcast_to$', r[1].callee or '')):
+                    bad = 'returns a value that is not the broadcast check'
+        ctx.inst(R, 'predicate:broadcast-checked', bad is None and nret >= 1, 'can_run_binary_op_in_place is true only when b.can_broadcast_to(a.shape())' if bad is None else
+                 'can_run_binary_op_in_place %s: the in-place result would keep the in-place operand\'s shape while normal execution produces the broadcast shape' % bad, pf.loc())
 
     # ---- delegation (TransformInputs)
     R = 'C13.delegation'
